@@ -129,7 +129,7 @@ func c18Snapshots(k int) map[string]*config.ClusterResources {
 		case 0: // all pools, all nodes
 		case 1:
 			l2.Spec.IPAddressPools = []string{"pool-" + names[0], "pool-" + names[k-1]}
-			l2.Spec.Interfaces = []string{"eth0"}
+			l2.Spec.Interfaces = []string{"eth2", "eth0", "eth1"} // several interfaces, not in sorted order
 		case 2:
 			l2.Spec.IPAddressPoolSelectors = []metav1.LabelSelector{sel("grp", "0")}
 			l2.Spec.NodeSelectors = []metav1.LabelSelector{sel("rack", "0")}
@@ -222,6 +222,19 @@ func c18Snapshots(k int) map[string]*config.ClusterResources {
 		ag.BGPAdvs[0].Spec = metallbv1beta1.BGPAdvertisementSpec{AggregationLength: ptr.To(l4), AggregationLengthV6: ptr.To(l6), IPAddressPools: []string{"pool-" + names[k-1]}}
 		res["rej-aggregation-too-short-only-"+fam] = &ag
 	}
+
+	// several peers with BFD echo mode, IPv6 pools, every advertisement names one of the echo peers only: refused,
+	// whichever echo peer a loop over the peers meets first
+	echo := c18Apply(rich, nil)
+	for i := range echo.BFDProfiles {
+		if i != 0 { // profile names[j] is used by peer j-1: peers 0 and 1 (and 2 when k=4) get echo mode
+			echo.BFDProfiles[i].Spec.EchoMode = ptr.To(true)
+		}
+	}
+	for i := range echo.BGPAdvs {
+		echo.BGPAdvs[i].Spec.Peers = []string{"peer-" + names[0]}
+	}
+	res["rej-bfd-echo-on-ipv6-pool-one-of-several-echo-peers"] = &echo
 
 	// ties: two pools pinned to the same namespaces with the same non-zero priority, two selector pools likewise
 	tie := c18Apply(rich, nil)
